@@ -41,7 +41,7 @@ LEVEL_NOTE = ('The model is the code WITH the fixes F-15a-g (proposed/*.md): the
 
 
 def generate(tier, rng):
-    n = 4000 if tier == "quick" else 60000
+    n = 9000 if tier == "quick" else 60000
     for _ in range(n):
         yield sc.gen_case(rng, "c15")
 
